@@ -47,3 +47,20 @@ package tls
 //@   requires c != nil && hello != nil && (*c) != nil
 //@   modifies (*c).HandshakeState.Hello
 //@   ensures raw_is_sent: (*hello) != nil ==> (*c).HandshakeState.Hello != nil && (*c).HandshakeState.Hello.Raw == (*hello).original
+
+// (*Conn).loadSession (handshake_client.go, upstream with uTLS sections): thin contract, anchors only (see above).
+//   resumed_name (C14): a cached session is offered for resumption only after its leaf certificate was checked
+//       against the verification name the Config asks for: InsecureServerNameToVerify when set (and not "*"),
+//       ServerName otherwise -- resumed handshakes never reach verifyServerCertificate, so this is the only name
+//       check they get.
+//       (That a session survives only if this call accepted it is plain control flow right after the call; it is
+//       not stated as a clause because everything later is separated from it by heap-havocking calls.)
+//@ func (*Conn).loadSession
+//@   property C14 C19
+//@   unchecked safety pre
+//@   note unchecked: thin contract; panic-freedom of this upstream function and the preconditions of its callees are listed assumptions
+//@   requires c != nil && hello != nil
+//@   at before call VerifyHostname#0: assert resumed_name: c.config.InsecureServerNameToVerify != "*" && arg1 == ite(len(c.config.InsecureServerNameToVerify) == 0, c.config.ServerName, c.config.InsecureServerNameToVerify)
+//@   loop 0 invariant -1 <= $rangeindex
+//@   loop 1 invariant -1 <= $rangeindex
+//@   loop 2 invariant -1 <= $rangeindex
